@@ -244,6 +244,9 @@ def run_property(prop: str, tier: str) -> int:
         pass
     mod = importlib.import_module(f'checks.{prop}')
     obls: list[Ob] = mod.obligations(tier)
+    only = os.environ.get('VERIF_ONLY')      # development aid (never set by a registered command): a subset of the obligations
+    if only:
+        obls = [o for o in obls if any(t in o.id for t in only.split(','))]
     known = load_findings(prop)
     lines, violations, harness_errors = [], [], []
     known_hits = []
